@@ -103,7 +103,7 @@ impl Prop for C19 {
         }
     }
     fn rule(&self) -> &'static str {
-        "One case = the whole server started from a generated Config (blacklist mode block/forbidden x list empty / the client's address / others, IPv4, IPv6, or IPv4 clients on a dual-stack [::] listener x routes of all four types: file, directory, proxy to a scripted upstream, redirect x cache on/off x 1..4 threads) and 1..3 clients connecting from chosen source addresses (loopback, private, documentation ranges; IPv6) sending 1..4 keep-alive requests each on routed paths (a file route; a directory route: a file in it, a sub-directory without and with the trailing slash, a missing file; a proxy route; a redirect route) and unrouted paths with X-Forwarded-For absent or listing listed/unlisted addresses (',' or ', ' separators, several entries, sometimes with an entry that is not an address among them); a history dimension: an unlisted client warms the cache for the path a listed client then asks. Distinct = distinct (mode, listedness of peer and of each forwarded entry, route kind, position in the connection, cache state, outcome); non-trivial = the blacklist is non-empty and at least one request involves a listed address."
+        "One case = the whole server started from a generated Config (blacklist mode block/forbidden x list empty / the client's address / others, IPv4, IPv6, or IPv4 clients on a dual-stack [::] listener x routes of all four types: file, directory, proxy to a scripted upstream, redirect x cache on/off x 1..4 threads) and 1..3 clients connecting from chosen source addresses (loopback, private, documentation ranges; IPv6) sending 1..4 keep-alive requests each on routed paths (a file route; a directory route: a file in it, a sub-directory without and with the trailing slash, a missing file; a proxy route; a redirect route) and unrouted paths with X-Forwarded-For absent or listing listed/unlisted addresses (',' or ', ' separators, several entries, sometimes with an entry that is not an address among them, one request in twelve with a chain of 31..200 mostly unlisted entries); a history dimension: an unlisted client warms the cache for the path a listed client then asks. Distinct = distinct (mode, listedness of peer and of each forwarded entry, route kind, position in the connection, cache state, outcome); non-trivial = the blacklist is non-empty and at least one request involves a listed address."
     }
     fn assumptions(&self) -> Vec<String> {
         vec![
@@ -114,7 +114,7 @@ impl Prop for C19 {
         ]
     }
     fn expected_counters(&self) -> Vec<&'static str> {
-        vec!["c19.xff_with_unparseable_entry", "c19.dual_stack_listener", "c19.block_mode", "c19.forbidden_mode", "c19.listed_peer_requests", "c19.forged_xff_by_listed_peer", "c19.unlisted_peer_forwarding_listed", "c19.all_unlisted_requests", "c19.ipv6_runs", "c19.cache_on", "c19.kind.file", "c19.kind.dir", "c19.kind.dir-sub-redirect", "c19.kind.dir-index", "c19.kind.dir-missing", "c19.kind.proxy", "c19.kind.redirect", "c19.kind.unrouted", "c19.cache_warmed_then_listed"]
+        vec!["c19.xff_with_unparseable_entry", "c19.xff_chain_of_32_or_more", "c19.dual_stack_listener", "c19.block_mode", "c19.forbidden_mode", "c19.listed_peer_requests", "c19.forged_xff_by_listed_peer", "c19.unlisted_peer_forwarding_listed", "c19.all_unlisted_requests", "c19.ipv6_runs", "c19.cache_on", "c19.kind.file", "c19.kind.dir", "c19.kind.dir-sub-redirect", "c19.kind.dir-index", "c19.kind.dir-missing", "c19.kind.proxy", "c19.kind.redirect", "c19.kind.unrouted", "c19.cache_warmed_then_listed"]
     }
     fn real_vs_stub(&self) -> (Vec<&'static str>, Vec<&'static str>) {
         (vec!["humphrey_server::server::server::main (whole), verify_connection, file/directory/redirect/proxy handlers, blacklist_check, cache, Logger + monitor thread, humphrey::App, Address::from_headers, proxy_request"], vec!["TCP with arbitrary peer addresses, threads, clocks (humsim)", "upstream and clients are harness reference implementations", "std::fs real"])
@@ -160,6 +160,15 @@ impl Prop for C19 {
                         if !xff.is_empty() && r3.chance(1, 5) {
                             let at = r3.usize_below(xff.len() + 1);
                             xff.insert(at, JUNK[r3.usize_below(JUNK.len())].to_string());
+                        }
+                        // one request in twelve carries a long forwarding chain (around and far above
+                        // 32 entries) of mostly unlisted addresses: every entry counts, and so does
+                        // the peer behind them
+                        if r3.chance(1, 12) {
+                            let n = [31usize, 32, 33, 34, 40, 64, 200][r3.usize_below(7)];
+                            let unlisted: Vec<String> = p.iter().map(|a| a.to_string()).filter(|a| !list.contains(a)).collect();
+                            let one_listed_at = if !list.is_empty() && r3.chance(1, 3) { Some(r3.usize_below(n)) } else { None };
+                            xff = (0..n).map(|i| if Some(i) == one_listed_at || unlisted.is_empty() { list[r3.usize_below(list.len().max(1)) % list.len().max(1)].clone() } else { unlisted[r3.usize_below(unlisted.len())].clone() }).collect();
                         }
                     }
                     Rq { kind, xff, xff_sep: if rng.chance(1, 2) { ",".into() } else { ", ".into() } }
@@ -329,6 +338,9 @@ impl Prop for C19 {
             }
             for (i, r) in c.reqs.iter().enumerate() {
                 rr.count(&format!("c19.kind.{}", if ROUTED.contains(&r.kind.as_str()) { r.kind.as_str() } else { "unrouted" }), 1);
+                if r.xff.len() >= 32 {
+                    rr.count("c19.xff_chain_of_32_or_more", 1);
+                }
                 if r.xff.iter().any(|a| JUNK.contains(&a.as_str())) {
                     rr.count("c19.xff_with_unparseable_entry", 1);
                 }
